@@ -363,7 +363,7 @@ func (c *c08) xfEnc(s string, e g7Enc, in string, level int) {
 			where := in + fmt.Sprintf(" len(dst)=%d dst pre-filled %s", cp, fillName(fill, d0))
 			c.judgeCall("encode", call, where, len(src), cp, need, e.cls == 0, e.out, true)
 			// both fills are judged above; as a model case: one fill per size (all at the exact fit and for the corpus)
-			asCase := level > 2 || cp == need || !r.Quick || fill == fills[cp%len(fills)]
+			asCase := level > 2 || cp == need || fill == fills[cp%len(fills)]
 			if asCase && call.cls != 5 && (call.cls != 3 || (call.nDst == 0 && call.nSrc == 0)) {
 				out := []byte{}
 				if call.cls == 0 && call.nDst >= 0 && call.nDst <= len(dst) {
@@ -555,7 +555,7 @@ func (c *c08) histories() {
 	}
 	enc := gsm7bit.Packed.NewEncoder().Transformer
 	dec := gsm7bit.Packed.NewDecoder().Transformer
-	nh := r.N(60, 600)
+	nh := r.N(60, 300)
 	for h := 0; h < nh; h++ {
 		pool := pools[h%len(pools)]
 		var trail []string
